@@ -15,8 +15,12 @@ AllDevs == {"D_new_compressor_revname_rest", "D_new_compressor_ptr_overflow",
             "D_new_builder_failed_push_compressor", "D_new_builder_truncate_counts",
             "D_new_compressor_partial_match_children"}
 OpenDevs == {d \in AllDevs : d \in DOMAIN IOEnv}
-\* deviations under which the new builder writes a name that reads back wrong
-WrongNameDevs == {"D_new_compressor_revname_rest", "D_new_compressor_partial_match_children"} \cap OpenDevs
+\* deviations under which the new builder writes a name that reads back
+\* wrong; the second one only for scripts whose names can trigger it (two
+\* names ending in a.S and a.T with T a proper suffix of S: `prone`)
+WrongNameDevsFor(e) ==
+  ({"D_new_compressor_revname_rest"} \cup
+   (IF e.prone THEN {"D_new_compressor_partial_match_children"} ELSE {})) \cap OpenDevs
 
 W == INSTANCE Wire WITH Dev <- {}
 
@@ -42,16 +46,16 @@ T_Built ==
   /\ LET ok == SpecReads(Rec[l].m, Rec[l].items) IN
      /\ Rec[l].old_reads = ok
      /\ Rec[l].new_reads = ok
-     /\ (IF ok \/ (Rec[l].side = "new" /\ WrongNameDevs # {}) THEN TRUE ELSE FALSE)
-     /\ used' = IF ok THEN used ELSE used \cup WrongNameDevs
+     /\ (IF ok \/ (Rec[l].side = "new" /\ WrongNameDevsFor(Rec[l]) # {}) THEN TRUE ELSE FALSE)
+     /\ used' = IF ok THEN used ELSE used \cup WrongNameDevsFor(Rec[l])
 
 T_Big ==
   /\ IsEv("bigbuilt")
   /\ Rec[l].old_reads = Rec[l].new_reads
   /\ \/ Rec[l].built = "ok" /\ Rec[l].old_reads /\ used' = used
      \/ /\ Rec[l].built = "ok" /\ ~Rec[l].old_reads /\ Rec[l].side = "new"
-        /\ WrongNameDevs # {}
-        /\ used' = used \cup WrongNameDevs
+        /\ WrongNameDevsFor(Rec[l]) # {}
+        /\ used' = used \cup WrongNameDevsFor(Rec[l])
      \/ /\ Rec[l].built = "panic" /\ Rec[l].side = "new"
         /\ "D_new_compressor_ptr_overflow" \in OpenDevs
         /\ used' = used \cup {"D_new_compressor_ptr_overflow"}
